@@ -269,8 +269,10 @@ impl dyn Submessage + Send + '_ {
         self.write_submessage_elements_into_bytes(buf);
         let pos = buf.position();
         buf.set_position(header_position);
-        let len = pos - elements_position;
-        self.write_submessage_header_into_bytes(len as u16, buf);
+        // A body larger than 65535 octets can only be sent as the last submessage of a message,
+        // announced with octetsToNextHeader = 0 ("extends to the end of the message", RTPS 9.4.5.1.3)
+        let octets_to_next_header = u16::try_from(pos - elements_position).unwrap_or(0);
+        self.write_submessage_header_into_bytes(octets_to_next_header, buf);
         buf.set_position(pos);
     }
 }
